@@ -40,7 +40,7 @@ COMPONENTS = {
     "stub": ["text / ODF / XLSX peers", "SimFS/SimRaw", "defect and rewrite injector"],
 }
 
-PROBES_REQUIRED = ["rewrite:" + name for name in ("comment-rows", "trailing-cells", "marker-case", "format-case",
+PROBES_REQUIRED = ["rewrite:" + name for name in ("format-synonym-csv", "comment-rows", "trailing-cells", "marker-case", "format-case",
                                                     "property-name-case", "blanks-around-cells", "reorder-properties",
                                                     "empty-rows", "empty-mark-case")] + [
     "storage:rows", "storage:csv", "storage:ods", "storage:xlsx", "defect:duplicate-field-name", "defect:format-twice",
@@ -175,7 +175,8 @@ def _d8(rows, index):
 
 for _name, _value in (("keyword-field-name", "class"), ("non-ascii-field-name", "straße"), ("digit-first-field-name", "1abc"),
                       ("blank-inside-field-name", "a b"), ("empty-field-name", ""), ("dash-in-field-name", "a-b"),
-                      ("underscore-first-field-name", "_a")):
+                      ("underscore-first-field-name", "_a"), ("superscript-digit-in-field-name", "a²"),
+                      ("arabic-indic-digit-in-field-name", "ab١c"), ("fullwidth-digit-in-field-name", "a_１")):
     defect(_name, "f")(_set(1, _value))
 defect("bad-empty-mark", "f")(_set(3, "Y"))
 defect("empty-mark-word", "f")(_set(3, "yes"))
@@ -314,7 +315,7 @@ def applicable_rows(rows, name):
 
 
 # ---- benign rewrites -------------------------------------------------------------------------------
-REWRITES = ["comment-rows", "trailing-cells", "marker-case", "format-case", "property-name-case", "blanks-around-cells",
+REWRITES = ["format-synonym-csv", "comment-rows", "trailing-cells", "marker-case", "format-case", "property-name-case", "blanks-around-cells",
             "reorder-properties", "empty-rows", "empty-mark-case"]
 
 
@@ -338,6 +339,10 @@ def apply_rewrites(rows, names, rng):
             for row in rows:
                 if row and row[0].strip():
                     row[0] = row[0].upper() if rng.random() < 0.7 else row[0]
+        elif name == "format-synonym-csv":
+            for row in rows:
+                if row and row[0].strip().lower() == "d" and row[1].strip().lower() == "format" and row[2].lower() == "delimited":
+                    row[2] = "csv"  # documented synonym
         elif name == "format-case":
             for row in rows:
                 if row and row[0].strip().lower() == "d" and row[1].strip().lower() == "format":
